@@ -11,7 +11,7 @@ import os
 import re
 import shutil
 import vlib
-from checks import cpueq
+from checks import cpueq, cpusafe
 
 EXTRACT_V = """Require Extraction.
 Require Import ExtrOcamlBasic.
@@ -265,6 +265,47 @@ def run_c02(ck):
                 "boundary-directed operands and pointers (bank ends, $FFFFFF, page ends, direct-page and stack wrap), pending interrupts, callbacks; plus multi-step "
                 "random programs; every case runs on both compiled interpreters and both extracted models; distinct = number of generated cases (each has its own PRNG draw)",
         "checker_cmd": "coqc build/work/Run/C02_eq.v ; build/work/ml_GenCpu65/driver, build/work/ml_GenCpuAlt/driver vs harness cpucases",
+    })
+
+
+def run_c08(ck):
+    models, corr, tie_ok, stats = common(ck, "C08")
+    if models:
+        def one(mod):
+            txt, info = cpusafe.generate(os.path.join(vlib.GEN, mod + ".v"), mod)
+            pv = os.path.join(vlib.RUN, "C08_%s.v" % mod)
+            vlib.write_if_changed(pv, txt)
+            rc, out, dt, cached = vlib.coqc(pv, timeout=1800)
+            return mod, info, rc, out, dt, cached
+        for (mod, info, rc, out, dt, cached) in vlib.parallel([lambda m=m: one(m) for m in ("GenCpu65", "GenCpuAlt")]):
+            failing = ""
+            m = re.search(r"\(in proof (\w+)\)", out)
+            if m:
+                failing = m.group(1)
+            elif rc != 0:
+                failing = out[-700:]
+            label = "cpu65c816+bus" if mod == "GenCpu65" else "cpualt"
+            ck.oblige("Theorem C08_step_%s : forall s, Inv (Bty fwidth) s -> safe (fun _ s' => Inv (Bty fwidth) s') (Step s)  [%s: from ANY state with fields in their Go "
+                      "types - every E, D, width, pending interrupt, stale copies - one Step does not panic, keeps every field in range and issues only bus accesses < 2^24; "
+                      "%d routine lemmas over the regenerated model, %.0fs%s]" % (mod, label, len(info["lemmas"]), dt, ", cached" if cached else ""), rc == 0,
+                      "first lemma that no longer checks: " + failing)
+            ck.oblige("Theorem C08_run_%s / C08_trace_%s : forall n s, ... run Step n s does not panic and Forall ev_ok (trace s')  (every program, induction on n)" % (mod, mod), rc == 0, failing)
+            if rc == 0:
+                ck.assumptions += vlib.parse_assumptions(out)
+            elif not ck.violations:
+                ck.violation("C08.theorem.%s.%s" % (mod, failing.split()[0] if failing else "x"), "broken-theorem",
+                             "range/no-panic lemma %s over the regenerated model %s no longer checks; the Go falsifier (boundary-directed cases with recover()) found no crashing input" % (failing, mod),
+                             {"lemma": failing, "file": "build/work/Run/C08_%s.v" % mod})
+            ck.cov["lemmas_" + mod] = len(info["lemmas"])
+        bad = vlib.foreign_assumptions(ck.assumptions)
+        ck.oblige("Print Assumptions: closed under the global context", not bad, "unexpected: %s" % bad)
+        ck.sample({"theorem": "C08_step_GenCpu65 : forall s, Inv (Bty fwidth) s -> safe (fun _ s' => Inv (Bty fwidth) s') (Step s)",
+                   "where": "Inv B s := (forall f, B f (get f s)) /\\ Forall ev_ok (trace s); ev_ok (EvR a _ | EvW a _) := 0 <= a < 2^24; safe Q Panic := False"})
+    ck.cov.update({
+        "distinct_nontrivial": stats.get("cases", 0),
+        "rule": "theorem: all states (unbounded). Tie/falsifier cases: one PRNG per shard; per opcode x variants single-step cases incl. DBR=$FF, long operands near $FFFFFF, every index "
+                "class, E=1, D=1, stale copies, pending interrupts; multi-step programs; each case runs on both compiled interpreters with recover() and on both extracted models",
+        "checker_cmd": "coqc build/work/Run/C08_GenCpu65.v build/work/Run/C08_GenCpuAlt.v (engine coq/Props/SafeLib.v)",
     })
 
 
